@@ -15,7 +15,8 @@ class C07(WigBedProp):
             "two or more records on some chromosome")
 
     def gen_input(self, r):
-        return bbgen.gen_wig_input(r, value_mode="int")
+        # chromosome lengths kept ≤ 5000: the model's tiler appends to a list (quadratic in the number of records)
+        return bbgen.gen_wig_input(r, value_mode="int", lengths=(50, 100, 257, 1000, 5000))
 
     def cases(self, rng, tier):
         n = 2000 if tier == "thorough" else 260
